@@ -48,8 +48,8 @@ def feasible(p):
 
 def is_debug_cond(e):
     """conditions that belong to debug_assert_eq!(..) expansions"""
-    if e[1] == ('c', 1, 'bool'):
-        return True
+    if e[1] == ('c', 1, 'bool') or (e[1][0] == 'c' and len(e[1]) == 3 and e[1][2] == 'bool'):
+        return True          # a branch on a constant (the executable side was selected by feasible())
     if e[1][0] == 'bin' and e[1][1] == 'Eq' and any(s[0] == 'cptr' for s in walk(e[1])):
         return True
     return False
@@ -159,21 +159,56 @@ def main_transitions(rep, f, c, sink):
     rep.ob('C10-D1.offset-init', fn, all(p.env.get(off) == C(0) for p in pre if p.end[0] == 'stop') and bool(pre),
            'offset is not initialised to 0', site, None, c)
     N = Norm(b, off)
-    out = set()
     paths = [p for p in region_paths(b, heads[0]) if feasible(p)]
     rep.count('paths:' + fn, len(paths))
+    # The first iteration is also extracted from the function entry: what is decided before the loop (a guard hoisted out of the
+    # arms: `if src.is_empty() && matches!(self.life_cycle, AtStart | ..) { return .. }`) is part of its conditions.  Later
+    # iterations start in a state that a continuing transition can leave behind; transitions extracted from the loop head alone
+    # count only for those states.
+    later = _extract_transitions(rep, f, c, fn, b, off, N, paths, sink)
+    pre_f = [p for p in pre if feasible(p) and p.end[0] != 'diverge']
+    if not (any(p.end[0] == 'return' for p in pre_f) or any(p.conds() for p in pre_f)):
+        return later
+    if any(p.stores() for p in pre_f):
+        rep.undecidable('C10-D1', fn, 'state is modified before the dispatch loop', site, c)
+        return later
+    pre_t = _extract_transitions(rep, f, c, fn, b, off, N, pre_f, sink, pre_mode=True)
+    first = {t_ for t_ in pre_t if t_[3] != 'stop'}
+    for s_, g_, eff_, end_ in later:
+        for s2, g2, eff2, end2 in pre_t:
+            if end2 != 'stop' or s2 != s_:
+                continue
+            gs = tuple(dict.fromkeys(tuple(g2) + tuple(g_)))
+            if any(('!' + x) in gs for x in gs if not x.startswith('!')):
+                continue          # contradictory: this first iteration cannot happen
+            first.add((s_, gs, eff_, end_))
+    after_continue = set()
+    for s_, g_, eff_, end_ in first | later:
+        if end_ == 'continue':
+            nxt = [x[len('state:='):] for x in eff_ if x.startswith('state:=')]
+            after_continue.add(nxt[-1] if nxt else s_)
+    return first | {t_ for t_ in later if t_[0] in after_continue}
+
+
+def _extract_transitions(rep, f, c, fn, b, off, N, paths, sink, pre_mode=False):
+    out = set()
+    lc_all = {v_['name'] for v_ in (f.adts.get('DecoderLifeCycle') or {'variants': []})['variants']}
     for p in paths:
         st = [e for e in p.conds() if e[1][0] == 'variant' and e[1][1] == ('fld', ('deref', SELF), 'life_cycle')]
         if p.end[0] == 'diverge' and not p.calls() and 'unreachable' in b.blocks[p.end[1]]['t']:
             continue   # the `unreachable` otherwise-edge of the match
-        if len(st) < 1:
+        if len(st) < 1 and not pre_mode:
             rep.undecidable('C10-D1', fn, 'path does not dispatch on life_cycle', sp_str(b.blocks[p.blocks[-1]]['tsp']), c)
             continue
         # an arm shared by several states (`A | B => ..`) may look at the state again inside: the path stands for the states that
         # satisfy all of its matches
-        states = None
+        states = set(lc_all) if pre_mode else None
         for e_ in st:
             labs_ = set(e_[2] if isinstance(e_[2], tuple) else (e_[2],))
+            if None in labs_:
+                # the otherwise edge: every state without an edge of its own at that switch
+                listed_ = {variant_of_edge(b, e_[3], l_) for l_, _ in switch_edges(b, e_[3])} - {None}
+                labs_ = (labs_ - {None}) | (lc_all - {str(x) for x in listed_})
             states = labs_ if states is None else (states & labs_)
         # `self.life_cycle == X` / `!= X` inside a shared arm narrows the states the same way
         lc_adt = f.adts.get('DecoderLifeCycle')
@@ -269,6 +304,8 @@ def main_transitions(rep, f, c, sink):
         calls = [e for e in p.calls() if (e[1] or '').startswith('Decoder::')]
         if p.end[0] == 'back':
             end = 'continue'
+        elif p.end[0] == 'stop' and pre_mode:
+            end = 'stop'
         elif p.end[0] == 'diverge':
             end = 'panic'
         else:
